@@ -28,7 +28,19 @@ from happysimulator.components.rate_limiter.policy import (
 from happysimulator.components.server import Server
 
 from hsverif.scenarios import Scenario, scenario
-from hsverif.scenarios._kit import ConstantLatency, Entity, Event, P, Proc, Recorder, ev, make_sim
+from hsverif.scenarios._kit import (
+    FRONT_STAGES,
+    ConstantLatency,
+    Entity,
+    Event,
+    P,
+    Proc,
+    Recorder,
+    Replier,
+    ev,
+    front_stage,
+    make_sim,
+)
 
 
 def _every(p: P, i: int, n: int = 2500) -> float:
@@ -88,11 +100,12 @@ def gateway_mixed_routes(seed, params):
     rec = Recorder("rec")
     fast = VarBackend("be.fast", [svc, svc * 0.5])
     slow = VarBackend("be.slow", [svc * 4, svc], downstream=rec)
+    more = [VarBackend(f"be.more{j}", [svc * (1 + j % 3), svc * 0.25]) for j in range(p.count(0, 2, hi=6) - 2)]
     srv = Server("be.srv", concurrency=p.cap(2), service_time=ConstantLatency(p.lat(2)), queue_capacity=4, downstream=rec)
     routes = {
         "a": RouteConfig(
             "a",
-            backends=[fast, slow],
+            backends=[fast, slow, *more][: p.count(0, 2, hi=6)],
             rate_limit_policy=TokenBucketPolicy(capacity=p.cap(2) + 2, refill_rate=min(1e6, 1.0 / p.lat(3))),
             timeout=svc * 2,
         ),
@@ -108,7 +121,7 @@ def gateway_mixed_routes(seed, params):
     }
     gw = APIGateway("gw", routes, auth_latency=p.lat(0), auth_failure_rate=0.35)
     arr = p.arrivals(10)
-    sim = make_sim([gw, fast, slow, srv, rec], p.end())
+    sim = make_sim([gw, fast, slow, srv, rec, *more], p.end())
     order = ["a", "b", "a", "d", "c", "nope", "a", "b", "d", None]
     for i, t in enumerate(arr):
         e = ev(t, "Request", gw, i=i, route=order[i % len(order)])
@@ -122,7 +135,7 @@ def gateway_all_timeouts(seed, params):
     LeakyBucket limiter; no auth failures (auth latency only)."""
     p = P(params, seed)
     svc = p.lat(0)
-    be = [VarBackend(f"be{j}", [svc * (2 + j), svc * 3]) for j in range(2)]
+    be = [VarBackend(f"be{j}", [svc * (2 + j % 3), svc * 3]) for j in range(p.count(0, 2, hi=6))]
     routes = {
         "x": RouteConfig("x", backends=be, rate_limit_policy=LeakyBucketPolicy(leak_rate=min(1e6, 1.0 / p.lat(2))), timeout=svc * 0.5),
         "y": RouteConfig("y", backends=be[:1], timeout=svc * 1.5, auth_required=False),
@@ -161,7 +174,7 @@ def idempotency_inflight_duplicates(seed, params):
     arr = arr + _tail(arr, svc * 3 + ttl * 0.5, 2) + _tail(arr, svc * 3 + ttl + _every(p, 2), 3)
     sim = make_sim([store, be, rec], p.end())
     for i, t in enumerate(sorted(arr)):
-        key = None if i % 5 == 4 else f"k{i % 3}"
+        key = None if i % 5 == 4 else f"k{i % p.count(0, 3)}"
         e = ev(t, "Request", store, i=i, key=key)
         sim.schedule(_hooked(e, rec) if i % 2 == 0 else e)
     return Scenario(sim, {"idem": store, "be": be, "rec": rec}, "microservice", True, len(arr))
@@ -185,7 +198,7 @@ def idempotency_server_target(seed, params):
     arr = sorted(arr + _tail(arr, p.lat(1) * 1.25, 4))
     sim = make_sim([store, srv, rec], p.end())
     for i, t in enumerate(arr):
-        sim.schedule(ev(t, "Request", store, i=i, key=f"k{i % 4}"))
+        sim.schedule(ev(t, "Request", store, i=i, key=f"k{i % p.count(0, 4)}"))
     return Scenario(sim, {"idem": store, "srv": srv, "rec": rec}, "microservice", True, len(arr))
 
 
@@ -200,7 +213,7 @@ def _outbox(seed, params, downstream_kind: str):
         down = Server("down", concurrency=p.cap(2), service_time=ConstantLatency(p.lat(2)), queue_capacity=5, downstream=rec)
     else:
         down = rec
-    relay = OutboxRelay("outbox", downstream=down, poll_interval=_every(p, 0), batch_size=max(2, p.cap(2)), relay_latency=p.lat(1))
+    relay = OutboxRelay("outbox", downstream=down, poll_interval=_every(p, 0), batch_size=p.count(0, max(2, p.cap(2))), relay_latency=p.lat(1))
 
     def writer(proc, event):
         i = event.context["metadata"]["i"]
@@ -246,33 +259,28 @@ def outbox_relay_to_server(seed, params):
 
 @scenario("microservice.saga_timeout_compensation", "microservice")
 def saga_timeout_compensation(seed, params):
-    """Three steps; step 1 alternates fast / slower-than-timeout, so every other saga times
-    out there and compensates step 0 while the late action response is still on its way."""
+    """counts[0] steps (default 3); every odd step alternates fast / slower-than-timeout, so
+    sagas time out there and compensate the earlier steps while the late action response is
+    still on its way; the last step has no timeout."""
     p = P(params, seed)
     f = p.lat(0)
     rec = Recorder("rec")
-    a0 = VarBackend("act0", [f])
-    a1 = VarBackend("act1", [f, f * 5])
-    a2 = VarBackend("act2", [f * 0.5, f * 2])
-    c0 = VarBackend("comp0", [p.lat(1)])
-    c1 = VarBackend("comp1", [p.lat(1) * 0.5])
-    c2 = VarBackend("comp2", [p.lat(2)])
+    n_steps = p.count(0, 3, hi=7)
+    acts, comps, steps = [], [], []
+    for j in range(n_steps):
+        services = [f, f * 5] if j % 2 == 1 else [f * (0.5 + 0.5 * (j % 3)), f]
+        acts.append(VarBackend(f"act{j}", services))
+        comps.append(VarBackend(f"comp{j}", [p.lat(1 + j % 2) * (0.5 + j % 2)]))
+        timeout = None if j == n_steps - 1 and n_steps > 1 else f * (2 if j % 2 else 3)
+        steps.append(SagaStep(f"step{j}", acts[j], f"Do{j}", comps[j], f"Undo{j}", timeout=timeout))
     outcomes: list = []
-    saga = Saga(
-        "saga",
-        steps=[
-            SagaStep("reserve", a0, "Reserve", c0, "Unreserve", timeout=f * 3),
-            SagaStep("charge", a1, "Charge", c1, "Refund", timeout=f * 2),
-            SagaStep("ship", a2, "Ship", c2, "Unship", timeout=None),
-        ],
-        on_complete=lambda sid, state, results: outcomes.append((sid, state.name)),
-    )
+    saga = Saga("saga", steps=steps, on_complete=lambda sid, state, results: outcomes.append((sid, state.name)))
     arr = p.arrivals(6)
-    sim = make_sim([saga, a0, a1, a2, c0, c1, c2, rec], p.end())
+    sim = make_sim([saga, *acts, *comps, rec], p.end())
     for i, t in enumerate(arr):
         sim.schedule(_hooked(ev(t, "StartSaga", saga, context={"payload": {"order": i}}, i=i), rec))
     return Scenario(
-        sim, {"saga": saga, "rec": rec, "act1": a1, "comp0": c0}, "microservice", True, len(arr), extras={"outcomes": outcomes}
+        sim, {"saga": saga, "rec": rec, "act0": acts[0], "comp0": comps[0]}, "microservice", True, len(arr), extras={"outcomes": outcomes}
     )
 
 
@@ -323,7 +331,7 @@ def sidecar_slow_target_retries(seed, params):
         circuit_success_threshold=1,
         circuit_timeout=max(p.lat(2), to * 2.5),
         request_timeout=to,
-        max_retries=2,
+        max_retries=p.count(0, 3, hi=4) - 1,
         retry_base_delay=p.lat(1),
     )
     arr = p.arrivals(8)
@@ -359,3 +367,233 @@ def sidecar_rate_limited(seed, params):
     for i, t in enumerate(arr):
         sim.schedule(ev(t, "Request", sc, i=i, weight=1, tag=rng.randrange(3)))
     return Scenario(sim, {"sidecar": sc, "srv": srv, "rec": rec}, "microservice", True, len(arr))
+
+
+# ----------------------------------------------------------------------
+# composition: components BEHIND a delaying / queueing stage, in front of different targets
+#
+#   x.v % 5         front stage (server_queue / conveyor / rate_limited / inductor / link)
+#   (x.v // 5) % 3  target: zero-latency Replier / Replier 3x slower than the timer / Server
+#   (x.v // 15) % 2 the component's timer (timeout / ttl) = 0.5 x or 3 x the front stage latency
+
+
+def _variant(p: P, seed: int):
+    v = int(p.x("v", seed * 7 + 3))
+    return FRONT_STAGES[v % 5], (v // 5) % 3, (0.5 if (v // 15) % 2 == 0 else 3.0), v
+
+
+def _make_target(kind: int, p: P, timer: float, rec, name: str = "target"):
+    if kind == 0:
+        return Replier(name, 0.0, downstream=rec)
+    if kind == 1:
+        return Replier(name, timer * 3, downstream=rec)
+    return Server(name, concurrency=p.cap(2), service_time=ConstantLatency(p.lat(1)), queue_capacity=8, downstream=rec)
+
+
+def _composed(seed, params, make, default_n: int = 8):
+    """make(p, target_factory, timer, rec) -> {name: entity}; the first entity is the entry."""
+    p = P(params, seed)
+    fk, tk, scale, v = _variant(p, seed)
+    timer = p.lat(0) * scale
+    rec = Recorder("rec")
+    targets: list = []
+
+    def new_target(name: str = "target"):
+        t = _make_target(tk, p, timer, rec, name if not targets else f"{name}{len(targets)}")
+        targets.append(t)
+        return t
+
+    comps = make(p, new_target, timer, rec)
+    first = next(iter(comps.values()))
+    entry, fents = front_stage(fk, p, first, 0)
+    arr = p.arrivals(default_n)
+    sim = make_sim([*comps.values(), *targets, rec, *fents], p.end())
+    nkeys = p.count(2, 3)
+    for i, t in enumerate(arr):
+        sim.schedule(ev(t, "Request", entry, context={"payload": {"i": i}}, i=i, key=f"k{i % nkeys}", route="ab"[i % 2] if i % 7 != 6 else "zz"))
+    sc = Scenario(sim, {**comps, "rec": rec, **{t.name: t for t in targets}}, "microservice", True, len(arr))
+    sc.notes = f"front={fk} target={('zero', 'slow', 'server')[tk]} timer={scale}x"
+    return sc
+
+
+@scenario("microservice.composed_sidecar", "microservice")
+def composed_sidecar(seed, params):
+    """Sidecar (request_timeout = the timer, retries from counts) behind a front stage."""
+
+    def make(p, new_target, timer, rec):
+        sc = Sidecar(
+            "sidecar",
+            target=new_target(),
+            rate_limit_policy=TokenBucketPolicy(capacity=50, refill_rate=min(1e6, 1.0 / p.lat(3))),
+            circuit_failure_threshold=p.count(1, 2, hi=4),
+            circuit_success_threshold=1,
+            circuit_timeout=timer * 2,
+            request_timeout=timer,
+            max_retries=p.count(0, 3, hi=4) - 1,
+            retry_base_delay=p.lat(2),
+        )
+        return {"sidecar": sc}
+
+    return _composed(seed, params, make)
+
+
+@scenario("microservice.composed_gateway", "microservice")
+def composed_gateway(seed, params):
+    """APIGateway behind a front stage: counts[0] backends per route, route timeout = the
+    timer (route a) / none (route b), auth latency, a token bucket on route b."""
+
+    def make(p, new_target, timer, rec):
+        backends = [new_target("be") for _ in range(p.count(0, 2, hi=5))]
+        routes = {
+            "a": RouteConfig("a", backends=backends, timeout=timer),
+            "b": RouteConfig(
+                "b",
+                backends=backends[:1],
+                rate_limit_policy=TokenBucketPolicy(capacity=p.cap(2) + 1, refill_rate=min(1e6, 1.0 / p.lat(3))),
+                auth_required=False,
+                timeout=None,
+            ),
+        }
+        return {"gw": APIGateway("gw", routes, auth_latency=p.lat(2), auth_failure_rate=0.2)}
+
+    return _composed(seed, params, make)
+
+
+@scenario("microservice.composed_idempotency", "microservice")
+def composed_idempotency(seed, params):
+    """IdempotencyStore behind a front stage: duplicates arrive spread out by the stage;
+    ttl = the timer, max_entries from counts."""
+
+    def make(p, new_target, timer, rec):
+        store = IdempotencyStore(
+            "idem",
+            target=new_target(),
+            key_extractor=lambda e: e.context.get("metadata", {}).get("key"),
+            ttl=timer,
+            max_entries=p.count(1, 2),
+            cleanup_interval=_every(p, 2),
+        )
+        return {"idem": store}
+
+    return _composed(seed, params, make)
+
+
+@scenario("microservice.composed_saga", "microservice")
+def composed_saga(seed, params):
+    """Saga (counts[0] steps, step timeout = the timer) behind a front stage; action targets
+    by x.v, compensation targets zero-latency."""
+
+    def make(p, new_target, timer, rec):
+        comp = Replier("comp", 0.0)
+        steps = [SagaStep(f"s{j}", new_target("act"), f"Do{j}", comp, f"Undo{j}", timeout=timer) for j in range(p.count(0, 3, hi=6))]
+        return {"saga": Saga("saga", steps=steps), "comp": comp}
+
+    return _composed(seed, params, make, default_n=6)
+
+
+@scenario("microservice.composed_outbox_relay", "microservice")
+def composed_outbox_relay(seed, params):
+    """OutboxRelay whose triggers arrive through a front stage and whose downstream is a
+    wrapper stack (Sidecar -> target); the writes themselves happen at the arrival instants."""
+    p = P(params, seed)
+    fk, tk, scale, v = _variant(p, seed)
+    timer = p.lat(0) * scale
+    rec = Recorder("rec")
+    target = _make_target(tk, p, timer, rec)
+    sc = Sidecar("sidecar", target=target, circuit_timeout=timer * 2, request_timeout=timer, max_retries=1, retry_base_delay=p.lat(2))
+    relay = OutboxRelay("outbox", downstream=sc, poll_interval=_every(p, 1), batch_size=p.count(0, 3), relay_latency=p.lat(3))
+    entry, fents = front_stage(fk, p, relay, 0)
+
+    def writer(proc, event):
+        relay.write({"i": event.context["metadata"]["i"]})
+        proc.done += 1
+        return [Event(time=proc.now, event_type="Written", target=entry)]
+
+    w = Proc("writer", writer)
+    arr = p.arrivals(8)
+    sim = make_sim([relay, sc, target, rec, w, *fents], p.end())
+    for i, t in enumerate(arr):
+        sim.schedule(ev(t, "write", w, i=i))
+    return Scenario(sim, {"outbox": relay, "sidecar": sc, "target": target, "rec": rec}, "microservice", True, len(arr))
+
+
+# ----------------------------------------------------------------------
+# degenerate configurations the constructors accept
+
+
+@scenario("microservice.degenerate_single_step_saga", "microservice")
+def degenerate_single_step_saga(seed, params):
+    """Sagas with exactly one step: completing at once (zero-latency action), timing out with a
+    step timeout of 0 (accepted) and of 1 ns, compensating nothing; zero steps is rejected by
+    the constructor (recorded in extras)."""
+    p = P(params, seed)
+    rec = Recorder("rec")
+    zero = Replier("zero", 0.0, downstream=rec)
+    slow = Replier("slow", p.lat(0), downstream=rec)
+    sagas = [
+        Saga("saga.instant", steps=[SagaStep("only", zero, "Do", zero, "Undo", timeout=p.lat(1))]),
+        Saga("saga.zero_timeout", steps=[SagaStep("only", slow, "Do", zero, "Undo", timeout=0.0)]),
+        Saga("saga.eps_timeout", steps=[SagaStep("only", slow, "Do", slow, "Undo", timeout=1e-9)]),
+        Saga("saga.no_timeout", steps=[SagaStep("only", slow, "Do", zero, "Undo", timeout=None)]),
+        Saga("saga.zero_then_slow", steps=[SagaStep("a", zero, "A", slow, "UndoA", timeout=0.0), SagaStep("b", slow, "B", zero, "UndoB", timeout=p.lat(0) * 0.5)]),
+    ]
+    try:
+        Saga("saga.empty", steps=[])
+        empty = "accepted"
+    except ValueError as exc:
+        empty = f"rejected: {exc}"
+    arr = p.arrivals(4)
+    sim = make_sim([*sagas, zero, slow, rec], p.end())
+    for i, t in enumerate(arr):
+        for sg in sagas:
+            sim.schedule(_hooked(ev(t, "StartSaga", sg, i=i), rec))
+    return Scenario(sim, {sg.name: sg for sg in sagas} | {"rec": rec}, "microservice", True, len(arr) * len(sagas), extras={"empty_saga": empty})
+
+
+@scenario("microservice.degenerate_empty_outbox_and_single_entry_store", "microservice")
+def degenerate_empty_outbox_and_single_entry_store(seed, params):
+    """OutboxRelay polled while empty (prime_poll and trigger events without any write), with
+    relay_latency 0 and batch_size 1; IdempotencyStore with max_entries=1 and a 1 ns ttl in
+    front of a zero-latency target; APIGateway with auth_latency 0, a route timeout of 0 and
+    auth_failure_rate 1.0; Sidecar with max_retries 0 and retry_base_delay 0."""
+    p = P(params, seed)
+    rec = Recorder("rec")
+    zero = Replier("zero", 0.0, downstream=rec)
+    slow = Replier("slow", p.lat(0), downstream=rec)
+    empty_relay = OutboxRelay("outbox.empty", downstream=rec, poll_interval=_every(p, 1), batch_size=1, relay_latency=0.0)
+    late_relay = OutboxRelay("outbox.late", downstream=zero, poll_interval=_every(p, 2), batch_size=1, relay_latency=0.0)
+    store = IdempotencyStore("idem.one", target=zero, key_extractor=lambda e: e.context.get("metadata", {}).get("key"), ttl=1e-9, max_entries=1, cleanup_interval=_every(p, 3))
+    store2 = IdempotencyStore("idem.slow", target=slow, key_extractor=lambda e: e.context.get("metadata", {}).get("key"), ttl=p.lat(1), max_entries=1, cleanup_interval=_every(p, 3))
+    gw = APIGateway(
+        "gw.zero",
+        {"a": RouteConfig("a", backends=[slow], timeout=0.0, auth_required=False), "b": RouteConfig("b", backends=[zero], timeout=p.lat(1))},
+        auth_latency=0.0,
+        auth_failure_rate=0.0,
+    )
+    gw_deny = APIGateway("gw.deny", {"a": RouteConfig("a", backends=[zero])}, auth_latency=p.lat(2), auth_failure_rate=1.0)
+    sc = Sidecar("sidecar.noretry", target=slow, circuit_failure_threshold=1, circuit_success_threshold=1, circuit_timeout=p.lat(1), request_timeout=p.lat(0) * 0.5, max_retries=0, retry_base_delay=0.0)
+    sc0 = Sidecar("sidecar.zero_backoff", target=slow, circuit_failure_threshold=9, circuit_timeout=p.lat(1), request_timeout=p.lat(0) * 0.5, max_retries=p.count(0, 2, hi=3), retry_base_delay=0.0)
+
+    def primer(proc, event):
+        proc.done += 1
+        if proc.done == 1:
+            return [empty_relay.prime_poll(), late_relay.prime_poll()]
+        late_relay.write({"late": proc.done})  # first write long after the (stopped) empty polls
+        return [Event(time=proc.now, event_type="Written", target=late_relay), Event(time=proc.now, event_type="Nudge", target=empty_relay)]
+
+    pr = Proc("primer", primer)
+    targets = [store, store2, gw, gw_deny, sc, sc0]
+    arr = p.arrivals(4)
+    sim = make_sim([*targets, empty_relay, late_relay, zero, slow, rec, pr], p.end())
+    sim.schedule(ev(min(arr), "prime", pr))
+    sim.schedule(ev(max(arr) + int(_every(p, 2) * 3e9), "late", pr))
+    for i, t in enumerate(arr):
+        for tg in targets:
+            sim.schedule(ev(t, "Request", tg, i=i, key="same" if i % 2 else f"k{i}", route="ab"[i % 2]))
+    return Scenario(
+        sim,
+        {t.name: t for t in targets} | {"outbox.empty": empty_relay, "outbox.late": late_relay, "rec": rec},
+        "microservice",
+        True,
+        len(arr) * len(targets) + 2,
+    )
